@@ -120,6 +120,9 @@ def run(ctx, F):
     ctx.floor("Formatted constructions examined", n_fmt, 40)
     # ---------------------------------------------------------------- (v) freshness of style-dependent decisions
     stale_style_decisions(ctx, tree)
+    # (vi) the output format reaches every scope created during the compilation
+    from rules.C36 import format_propagation
+    format_propagation(ctx, prog)
     ctx.explanation = ("Inventory of every read of the output style (MIR call sites of Format::is_compressed / get_indent and uses of Style constants) against a reviewed table; "
                        "whitespace-equivalence of all add_one literal pairs (AST); dominance regions of each style branch must contain no error exit; "
                        "provenance of the Format argument of every Formatted construction outside the serialisation phase. Whether two notations denote the same colour/number is C33/C10, not decided here.")
